@@ -44,6 +44,19 @@ class FeeValue:
 # However, if Fee field analysis is used by other components or tools(Fuzzer?), it is important to differentiate unknown and known values.
 
 
+def _mirrored_comparison(ins: "Instruction") -> "Instruction":
+    """Return the comparison that holds for `b a` when :ins: holds for `a b` (operands swapped)."""
+    if isinstance(ins, Less):
+        return Greater()
+    if isinstance(ins, LessE):
+        return GreaterE()
+    if isinstance(ins, Greater):
+        return Less()
+    if isinstance(ins, GreaterE):
+        return LessE()
+    return ins
+
+
 class FeeField(DataflowTransactionContext):
 
     BASE_KEYS: List[str] = [FEE_KEY]
@@ -150,12 +163,14 @@ class FeeField(DataflowTransactionContext):
                 # return U, U
                 return FeeValue(), FeeValue()
 
+            ins = ins_stack_value.instruction
             if isinstance(arg1, UnknownStackValue):
                 if not isinstance(arg2, UnknownStackValue) and not is_value_matches_key(key, arg2):
                     # arg1 is unknown and arg2 is not related to "key"
                     return FeeValue(), FeeValue()
                 # arg2 is related to key and arg1 is some unknown value
                 compared_value = FeeValue(is_unknown=True)
+                ins = _mirrored_comparison(ins)
             elif isinstance(arg2, UnknownStackValue):
                 if not isinstance(arg1, UnknownStackValue) and not is_value_matches_key(key, arg1):
                     # arg2 is unknown and arg1 is not related to "key"
@@ -175,12 +190,13 @@ class FeeField(DataflowTransactionContext):
                     compared_value = FeeValue(value=value)
                 else:
                     compared_value = FeeValue(is_unknown=True)
+                # `int c; txn Fee; <` is `Fee > c`
+                ins = _mirrored_comparison(ins)
 
             if compared_value is None:
                 # compared_value is not int.
                 return FeeValue(), FeeValue()
 
-            ins = ins_stack_value.instruction
             return self._get_asserted_max_value(ins, compared_value)
         return FeeValue(), FeeValue()
 
